@@ -1473,8 +1473,11 @@ def run(prop, tier):
             n = 0
             for writer in ("L", "F"):
                 for (npre, ndeliver, nduring, nafter, cuts) in ((2, 0, 0, 0, 1), (3, 2, 1, 1, 1), (1, 1, 2, 0, 2), (0, 0, 2, 1, 1), (3, 3, 0, 2, 2),
-                                                                (4, 1, 3, 0, 1)) if quick else \
-                        [(a, b, c, d, e) for a in (0, 1, 3) for b in (0, 1, 3) for c in (0, 2) for d in (0, 1) for e in (1, 2) if a + c + d > 0]:
+                                                                (4, 1, 3, 0, 1),
+                                                                # a long session: sequence numbers past one byte, over a cut
+                                                                (150, 120, 100, 60, 1)) if quick else \
+                        [(a, b, c, d, e) for a in (0, 1, 3) for b in (0, 1, 3) for c in (0, 2) for d in (0, 1) for e in (1, 2) if a + c + d > 0] + \
+                        [(150, 120, 100, 60, 1), (300, 257, 10, 300, 2)]:
                     tid += 1
                     n += 1
                     rec = full_stack_case(tid, writer, npre, ndeliver, nduring, nafter, cuts)
